@@ -49,7 +49,10 @@ pub fn image_of(node: &Node, db: &str) -> Option<Image> {
 /// Run the start-up sequence on `dir` in a child process; Err(reason) if it panics or aborts.
 pub fn load_probe(dir: &str) -> Result<String, String> {
     let exe = std::env::current_exe().unwrap();
-    let out = std::process::Command::new(exe).arg("load-probe").arg("x").arg(dir).output().map_err(|e| format!("spawn: {}", e))?;
+    let mut cmd = std::process::Command::new(exe);
+    cmd.arg("load-probe").arg("x").arg(dir);
+    cap_child_memory(&mut cmd);
+    let out = cmd.output().map_err(|e| format!("spawn: {}", e))?;
     if out.status.success() {
         Ok(String::from_utf8_lossy(&out.stdout).to_string())
     } else {
